@@ -770,14 +770,38 @@ func (repo *Repository) MarkHeaderInvalid(ctx context.Context, hash bitcoin.Hash
 		return errors.Wrap(err, "save invalid hashes")
 	}
 
-	// Check if hash was previously accepted
-	branch, height := repo.branches.Find(hash)
-	if branch != nil {
-		return nil // not found
-	}
+	// Check if hash was previously accepted. A header can be in more than one branch after branches
+	// have been reconnected during consolidation, so trim until it is no longer found.
+	for {
+		branch, height := repo.branches.Find(hash)
+		if branch == nil {
+			break // not found
+		}
 
-	if err := repo.branches.Trim(branch, height); err != nil {
-		return errors.Wrap(err, "trim")
+		previousBranches := make(Branches, len(repo.branches))
+		copy(previousBranches, repo.branches)
+
+		// Remove the header and the headers above it in its branch from the hash height lookup.
+		for h := height; h <= branch.Height(); h++ {
+			if data := branch.AtHeight(h); data != nil {
+				delete(repo.heights, data.Hash)
+			}
+		}
+
+		if err := repo.branches.Trim(branch, height); err != nil {
+			return errors.Wrap(err, "trim")
+		}
+
+		// Remove the headers of the removed descendant branches from the hash height lookup.
+		for _, previousBranch := range previousBranches {
+			if repo.branches.Includes(previousBranch) {
+				continue
+			}
+
+			for _, data := range previousBranch.headers {
+				delete(repo.heights, data.Hash)
+			}
+		}
 	}
 
 	longest := repo.branches.Longest()
@@ -903,13 +927,16 @@ func (repo *Repository) consolidate(ctx context.Context) error {
 
 	newBranches := Branches{newMainBranch}
 
-	// Reconnect previously oldest branch to the new main branch.
-	newOldestBranch, err := oldestBranch.Truncate(ctx, repo.store, newMainBranch, linkHeight)
-	if err != nil {
-		return errors.Wrap(err, "truncate previous oldest to main")
-	}
+	// Reconnect previously oldest branch to the new main branch. After headers were trimmed from it
+	// (marked invalid) it can end at the link height, then all of it is in the new main branch.
+	if oldestBranch.Height() > linkHeight {
+		newOldestBranch, err := oldestBranch.Truncate(ctx, repo.store, newMainBranch, linkHeight)
+		if err != nil {
+			return errors.Wrap(err, "truncate previous oldest to main")
+		}
 
-	newBranches = append(newBranches, newOldestBranch)
+		newBranches = append(newBranches, newOldestBranch)
+	}
 
 	// Sort by parent height so they can be properly connected to the new main branch.
 	sort.Sort(repo.branches)
